@@ -11,6 +11,8 @@ from . import extract
 
 SET_FIELDS = {"base_classes", "artificial_bases", "protocol_members", "used_ignores", "seen_errors"}
 SET_CALLS = {"set", "frozenset"}
+SET_SAFE_METHODS = {"update", "issubset", "issuperset", "intersection", "union", "difference", "symmetric_difference", "isdisjoint", "add", "discard", "remove",
+                    "intersection_update", "difference_update", "safe_in", "get", "setdefault", "isinstance", "safe_isinstance", "id", "hash", "repr"}
 ORDER_FREE_CONSUMERS = {"any", "all", "len", "sorted", "set", "frozenset", "sum", "min", "max", "bool", "isinstance"}
 
 
@@ -19,6 +21,11 @@ class _FnScan(ast.NodeVisitor):
         self.modname, self.qual, self.fn = modname, qual, fn
         self.setvars: set[str] = set()
         self.sites = []
+        for a in fn.args.posonlyargs + fn.args.args + fn.args.kwonlyargs:
+            if a.annotation is not None:
+                ann = ast.unparse(a.annotation).replace("typing.", "").replace("builtins.", "")
+                if ann.lower().startswith(("set[", "frozenset[", "abstractset[")) or ann in ("set", "frozenset"):
+                    self.setvars.add(a.arg)
         # two passes so that names assigned from set expressions are known before their uses
         for _ in range(2):
             for n in ast.walk(fn):
@@ -38,6 +45,8 @@ class _FnScan(ast.NodeVisitor):
             return True
         if isinstance(e, ast.Name) and e.id in self.setvars:
             return True
+        if isinstance(e, ast.Call) and isinstance(e.func, ast.Attribute) and e.func.attr in ("get", "pop", "setdefault") and len(e.args) == 2 and self.is_set(e.args[1]):
+            return True   # d.get(k, set()): a mapping whose values are sets
         if isinstance(e, ast.Attribute) and e.attr in SET_FIELDS:
             return True
         if isinstance(e, ast.BinOp) and isinstance(e.op, (ast.Sub, ast.BitOr, ast.BitAnd, ast.BitXor)):
@@ -88,6 +97,30 @@ class _FnScan(ast.NodeVisitor):
                             ann = ast.unparse(params[i].annotation)
                             if ann.startswith(("Iterable", "Sequence", "list", "List", "Collection", "tuple", "Tuple")):
                                 self.site(n, f"set passed to the ordered-iterable parameter `{params[i].arg}` of {callee}()", a)
+                # a set handed to any other callee escapes the function: the callee may iterate it, unless the receiving
+                # parameter / dataclass field is declared Container[...] (membership only) or set[...] (then the callee is
+                # scanned with that parameter as a set)
+                if callee is not None and callee not in ORDER_FREE_CONSUMERS and callee not in SET_SAFE_METHODS \
+                        and callee not in ("list", "tuple", "enumerate", "iter", "next", "join", "pop"):
+                    decl = ANY_FUNCS.get(callee)
+                    names, anns = [], {}
+                    if decl is not None:
+                        ps = [a for a in decl.args.posonlyargs + decl.args.args if a.arg not in ("self", "cls")]
+                        names = [a.arg for a in ps]
+                        anns = {a.arg: (ast.unparse(a.annotation) if a.annotation is not None else None) for a in ps + decl.args.kwonlyargs}
+                    elif callee in CLASS_FIELDS:
+                        names = [f for f, _ in CLASS_FIELDS[callee]]
+                        anns = dict(CLASS_FIELDS[callee])
+                    pairs = [(names[i] if i < len(names) else None, a) for i, a in enumerate(n.args)] + [(k.arg, k.value) for k in n.keywords]
+                    for pname, a in pairs:
+                        if not self.is_set(a):
+                            continue
+                        ann = (anns.get(pname) or "").replace("typing.", "").replace("builtins.", "")
+                        if ann.startswith("Container[") or ann.lower().startswith(("set[", "frozenset[", "abstractset[")) or ann in ("set", "frozenset"):
+                            continue
+                        already = any(s_["line"] == n.lineno and s_["expr"] == ast.unparse(a)[:80] for s_ in self.sites)
+                        if not already:
+                            self.site(n, f"set passed to {callee}()", a)
             elif isinstance(n, ast.Starred) and self.is_set(n.value):
                 self.site(n, "star-unpacking of a set", n.value)
         return self.sites
@@ -131,6 +164,8 @@ def set_typed_fields(modnames):
 
 
 FUNCS: dict = {}
+ANY_FUNCS: dict = {}      # function / method name -> def (first definition found in the scanned modules; ambiguous names are dropped)
+CLASS_FIELDS: dict = {}   # class name -> [(field, annotation text)] in declaration order
 
 
 def scan_modules(modnames):
@@ -140,6 +175,19 @@ def scan_modules(modnames):
         for node in ast.walk(mod.tree):
             if isinstance(node, (ast.FunctionDef, ast.AsyncFunctionDef)):
                 FUNCS.setdefault((m, node.name), node)
+    ambiguous = set()
+    for m in modnames:
+        mod = extract.get_module(m)
+        for node in ast.walk(mod.tree):
+            if isinstance(node, (ast.FunctionDef, ast.AsyncFunctionDef)):
+                if node.name in ANY_FUNCS and ANY_FUNCS[node.name] is not node:
+                    ambiguous.add(node.name)
+                ANY_FUNCS.setdefault(node.name, node)
+            if isinstance(node, ast.ClassDef):
+                CLASS_FIELDS.setdefault(node.name, [(st.target.id, ast.unparse(st.annotation)) for st in node.body
+                                                    if isinstance(st, ast.AnnAssign) and isinstance(st.target, ast.Name)])
+    for nme in ambiguous:
+        ANY_FUNCS.pop(nme, None)
     sites = []
     for m in modnames:
         mod = extract.get_module(m)
